@@ -154,6 +154,14 @@ func execC17(r *run, c caseT, tplCache map[string]*pongo2.Template) {
 			r.reject(id, "template route and ApplyFilter disagree", map[string]any{"filter": c.op, "input_hex": c.args[0]})
 		}
 	}
+	// route 3: what the escaping filters produce does not depend on whether the value was marked safe
+	if id%5 == 0 || len(in) > 4 {
+		out2, err2 := pongo2.ApplyFilter(c.op, pongo2.AsSafeValue(in), param)
+		r.stats["safe_input_route"]++
+		if (err2 != nil) != (err != nil) || (err == nil && out2.String() != out.String()) {
+			r.reject(id, "the filter gives another result for a value that is marked safe", map[string]any{"filter": c.op, "input_hex": c.args[0]})
+		}
+	}
 	if err != nil {
 		if c.op != "removetags" {
 			r.reject(id, "filter returned an error", map[string]any{"filter": c.op, "input_hex": c.args[0]})
